@@ -778,11 +778,12 @@ Proof.
   assert (TA : toQ tax == s_tax rnd cr c ics) by (unfold tax; rewrite precise_or_toQ; exact TX).
   set (twt := add total tax).
   assert (TW : den twt (mkF (ftotal + rnd ws (s_tax rnd cr c ics)) ws)) by (apply (den_add total _ tax _ TT TA)).
-  set (payable := match d_rounding d with Some r => add twt r | None => twt end).
-  set (fpayable := ftotal + rnd ws (s_tax rnd cr c ics) + match d_rounding d with Some r => rnd ws (toQ r) | None => 0 end).
+  set (payable := match match d_rounding d with Some r => Some (rescale r c) | None => None end with
+                  | Some r => add twt r | None => twt end).
+  set (fpayable := ftotal + rnd ws (s_tax rnd cr c ics) + match d_rounding d with Some r => rnd ws (rnd c (toQ r)) | None => 0 end).
   assert (PY : den payable (mkF fpayable ws)).
   { unfold payable, fpayable. destruct (d_rounding d) as [r|].
-    - apply (den_add twt _ r (toQ r) TW). reflexivity.
+    - apply (den_add twt _ (rescale r c) (rnd c (toQ r)) TW). apply (pres_rescale c r (toQ r)). reflexivity.
     - eapply den_Qeq; [exact TW| |reflexivity]. cbn [fq]. ring. }
   assert (AD : Forall2 den (map (advance_amount c twt) (d_advances d))
                            (map (s_advance rnd c (mkF (ftotal + rnd ws (s_tax rnd cr c ics)) ws)) (d_advances d))).
